@@ -6,8 +6,13 @@ iid noise, ragged rows) go through the real `Strop`; `is_strop` and the
 rectangles of every instance (in the order `rectangles()` yields them) are
 compared exactly with the Gallina model (`Strop/Strop.v`) by vm_compute.
 Vertex lists of random simple orthogonal single-trunk polygons, in both
-orientations, go through `strop_decomposition`, are loaded as a module and
-`create_stog` is called (direct oracle only).
+orientations, go through `strop_decomposition` (compared exactly with the
+Gallina model `Strop/Polygon.v`: the returned [cx, cy, w, h] list must be the
+rectangle list of one of the model's instances), are loaded as a module and
+`create_stog` is called (direct oracle).  `is_point_inside_polygon` is
+compared with the model's even-odd rule on orthogonal and on slanted (also
+self-intersecting) vertex lists, at cell centres, vertices, edge points and
+generic points.
 
 Direct oracle (independent of the implementation's method): brute force over
 every trunk rectangle for the existence of a decomposition; partition and
@@ -18,7 +23,7 @@ from fractions import Fraction as F
 from harness import core, fr
 from harness.core import gbool, gstr, glist
 
-HEADER = """From Coq Require Import List Bool Arith String.
+HEADER = """From Coq Require Import List Bool Arith String ZArith.
 From FrameModel Require Import Strop.Strop Cases.CmpC15.
 Import ListNotations.
 Open Scope string_scope."""
@@ -26,8 +31,11 @@ Open Scope string_scope."""
 ASSUMPTIONS = [
     "the iteration order of the Python sets of candidate trunks is unspecified: instances are compared after sorting "
     "by trunk (rows.low, rows.high, columns.low, columns.high); the rectangles of each instance are compared in order",
-    "polygon level (strop_decomposition, is_point_inside_polygon, create_stog): explored by the direct oracle only, "
-    "on dyadic coordinates (multiples of 1/4) so that the binary64 midpoints and differences are exact",
+    "polygon level: strop_decomposition and is_point_inside_polygon are compared exactly with the model Strop/Polygon.v "
+    "on dyadic coordinates (vertices on multiples of 1/4; slanted edges only between y levels a, a+h, a+2h with h a power "
+    "of two) so that every binary64 midpoint, difference, product and quotient is exact; the instance strop_decomposition "
+    "returns is the first in Python set order, so its output must equal the rectangle list of ONE of the model's instances; "
+    "netlist loading + create_stog: direct oracle only",
     "the completeness theorem is a finite sweep: all 0/1 matrices of every shape with at most the stated number of cells",
 ]
 
@@ -303,6 +311,68 @@ def poly_vertices(c):
     return pts
 
 
+def cell_centres(pts):
+    xs = sorted(set(x for x, _ in pts))
+    ys = sorted(set(y for _, y in pts))
+    return [((a + b) / 2, (c + d) / 2) for a, b in zip(xs, xs[1:]) for c, d in zip(ys, ys[1:])]
+
+
+def gen_inside_case(rng):
+    """A vertex list and points for is_point_inside_polygon.  'ortho': a single-trunk orthogonal
+    polygon; 'slant': any closed polyline whose vertices lie on three y levels a, a+h, a+2h (h a
+    power of two), so that the division in the crossing formula is exact in binary64."""
+    if rng.random() < 0.5:
+        c = gen_poly_case(rng)
+        vs = poly_vertices(c)
+        sub = "ortho"
+    else:
+        h = rng.choice([F(1, 2), F(1), F(2), F(4)])
+        a = F(rng.randrange(0, 32), 4)
+        n = rng.choice([3, 4, 5, 6, 8, 10])
+        vs = [(F(rng.randrange(0, 64), 4), a + h * rng.randrange(0, 3)) for _ in range(n)]
+        sub = "slant"
+    xs = [x for x, _ in vs]
+    ys = [y for _, y in vs]
+    pts = []
+    if sub == "ortho":
+        cc = cell_centres(vs)
+        rng.shuffle(cc)
+        pts += cc[:16]
+    for _ in range(6):      # vertices and points on the vertex lines (boundary rules <= / <)
+        pts.append((rng.choice(xs), rng.choice(ys)))
+    for _ in range(6):      # coarse points, often on edges
+        pts.append((F(rng.randrange(int(min(xs) * 8) - 8, int(max(xs) * 8) + 9), 8),
+                    F(rng.randrange(int(min(ys) * 8) - 8, int(max(ys) * 8) + 9), 8)))
+    for _ in range(10):     # generic points: odd multiples of 1/64, never on a vertex line
+        pts.append((F(2 * rng.randrange(int(min(xs) * 32) - 16, int(max(xs) * 32) + 16) + 1, 64),
+                    F(2 * rng.randrange(int(min(ys) * 32) - 16, int(max(ys) * 32) + 16) + 1, 64)))
+    return {"kind": "inside", "sub": sub, "vs": [list(v) for v in vs], "pts": [list(p) for p in pts],
+            "repr": rng.choice(["point", "ndarray"])}
+
+
+def parity_up(p, vs):
+    """Even-odd rule with a ray going UP from p (the code shoots its ray to the right); None when p
+    lies on the polyline or the ray meets a vertex (no demand there)."""
+    px, py = p
+    n = len(vs)
+    inside = False
+    for i in range(n):
+        (x1, y1), (x2, y2) = vs[i], vs[(i + 1) % n]
+        if px in (x1, x2):
+            if x1 == x2 == px and min(y1, y2) <= py <= max(y1, y2):
+                return None
+            if (px, py) in ((x1, y1), (x2, y2)):
+                return None
+            return None     # the ray may touch a vertex
+        if min(x1, x2) < px < max(x1, x2):
+            yi = y1 + (px - x1) * (y2 - y1) / (x2 - x1)
+            if yi == py:
+                return None
+            if yi > py:
+                inside = not inside
+    return inside
+
+
 def shoelace(pts):
     s = F(0)
     for (a, b), (c, d) in zip(pts, pts[1:] + pts[:1]):
@@ -329,7 +399,13 @@ def run_impl(case):
         return {"v": inst, "is": bool(s.is_strop)}
     import numpy as np
     from frame.geometry.geometry import Point
-    from tools.floorset_parser.floor_set_manager.utils.utils import strop_decomposition
+    from tools.floorset_parser.floor_set_manager.utils.utils import strop_decomposition, is_point_inside_polygon
+    if case["kind"] == "inside":
+        if case["repr"] == "point":
+            verts = [Point(float(x), float(y)) for x, y in case["vs"]]
+        else:
+            verts = list(np.array([[float(x), float(y)] for x, y in case["vs"]]))
+        return {"in": [bool(is_point_inside_polygon(Point(float(x), float(y)), verts)) for x, y in case["pts"]]}
     pts = poly_vertices(case)
     if case["repr"] == "point":
         verts = [Point(float(x), float(y)) for x, y in pts]
@@ -354,9 +430,25 @@ def run_impl(case):
             "after": [[r.center.x, r.center.y, r.shape.w, r.shape.h] for r in m.rectangles]}
 
 
+def gqq(x):
+    f = x if isinstance(x, F) else F(*float(x).as_integer_ratio())
+    n, d = f.numerator, f.denominator
+    return f"(q ({n}) {d})" if n < 0 else f"(q {n} {d})"
+
+
+def gpts(pts):
+    return glist([f"({gqq(x)}, {gqq(y)})" for x, y in pts])
+
+
 def to_coq(case, obs):
-    if case["kind"] != "m":
-        return "true"
+    if case["kind"] == "poly":
+        vs = gpts(poly_vertices(case))
+        if obs["rects"] is None:
+            return f"ckp {vs} None"
+        return f"ckp {vs} (Some {glist(['(' + ', '.join(gqq(v) for v in r) + ')' for r in obs['rects']])})"
+    if case["kind"] == "inside":
+        pbs = glist([f"(({gqq(x)}, {gqq(y)}), {gbool(b)})" for (x, y), b in zip(case["pts"], obs["in"])])
+        return f"cki {gpts(case['vs'])} {pbs}"
     rows = glist([gstr(r) for r in case["rows"]])
     if obs["v"] is None:
         return f"ck {rows} None false"
@@ -383,6 +475,13 @@ def oracle(case, obs):
             p = check_instance(rows, [tuple(x) for x in rs])
             if p:
                 return f"offered instance with trunk {rs[0] if rs else None}: {p}"
+        return None
+    if case["kind"] == "inside":
+        vs = [tuple(v) for v in case["vs"]]
+        for p, got in zip(case["pts"], obs["in"]):
+            want = parity_up(tuple(p), vs)
+            if want is not None and want != got:
+                return f"point {tuple(map(str, p))}: is_point_inside_polygon says {got}, an upward ray crosses the outline an {'odd' if want else 'even'} number of times"
         return None
     # polygon
     pts = poly_vertices(case)
@@ -416,7 +515,7 @@ def oracle(case, obs):
 
 
 def failure_key(case, why):
-    return "C15/grid" if case["kind"] == "m" else "C15/polygon"
+    return {"m": "C15/grid", "inside": "C15/point-inside"}.get(case["kind"], "C15/polygon")
 
 
 def shrink(case):
@@ -432,6 +531,16 @@ def shrink(case):
             for j, ch in enumerate(r):
                 if ch == "1":
                     yield dict(case, rows=rows[:i] + [r[:j] + "0" + r[j + 1:]] + rows[i + 1:], gen="shrunk")
+        return
+    if case["kind"] == "inside":
+        for k in range(len(case["pts"])):
+            if len(case["pts"]) > 1:
+                yield dict(case, pts=case["pts"][:k] + case["pts"][k + 1:])
+        for k in range(len(case["vs"])):
+            if len(case["vs"]) > 3:
+                yield dict(case, vs=case["vs"][:k] + case["vs"][k + 1:])
+        if case.get("repr") != "point":
+            yield dict(case, repr="point")
         return
     for s in "NSEW":
         for k in range(len(case[s])):
@@ -449,6 +558,8 @@ def shrink(case):
 def nontrivial(case):
     if case["kind"] == "m":
         return sum(r.count("1") for r in case["rows"]) >= 2
+    if case["kind"] == "inside":
+        return len(case["vs"]) >= 3
     return any(case[s] for s in "NSEW")
 
 
@@ -456,6 +567,8 @@ def dist_key(case):
     if case["kind"] == "m":
         g = case.get("gen", "?")
         return "grid/" + ("exhaustive" if g.startswith("all") else g)
+    if case["kind"] == "inside":
+        return "point-inside/" + case.get("sub", "?")
     return "polygon/" + ("cw" if case.get("rev") else "ccw") + "/" + case.get("repr", "?")
 
 
@@ -465,21 +578,26 @@ def run(ctx, out, replay=None):
                 "completeness theorem (thorough; R*C <= 20 does not fit the 15 minute budget); random matrices up to 10x10: single-trunk shapes, the same with 1-3 "
                 "flipped cells, holes, disconnected pieces, staircases, iid noise at four densities, full/empty, ragged "
                 "rows; random simple orthogonal single-trunk polygons (dyadic coordinates, both orientations, any "
-                "start vertex, Point or ndarray vertices, open or closed lists); non-trivial = at least two true cells "
-                "/ at least one branch; distinct by hash")
+                "start vertex, Point or ndarray vertices, open or closed lists); is_point_inside_polygon on such polygons and on "
+                "slanted / self-intersecting vertex lists (three y levels) at cell centres, vertices, edge points and generic "
+                "points; non-trivial = at least two true cells / at least one branch / at least three vertices; distinct by hash")
     cases = []
     if replay and "case" in replay:
         cases.append(fr.unjson(replay["case"]))
     cases += fr.load_corpus("C15")
     if quick:
         cases += list(exhaustive_cases(16, 4))
-        nrand, npoly = 3000, 600
+        nrand, npoly, ninside = 3000, 600, 200
     else:
         cases += list(exhaustive_cases(16, 16))
-        nrand, npoly = 40000, 6000
-    for _ in range(nrand):
-        cases.append(gen_matrix_case(ctx.rng))
+        nrand, npoly, ninside = 40000, 6000, 3000
+    # the polygon cases go first: their Coq shards (exact rationals) are the slowest and the
+    # shards are evaluated in parallel in list order
     for _ in range(npoly):
         cases.append(gen_poly_case(ctx.rng))
+    for _ in range(ninside):
+        cases.append(gen_inside_case(ctx.rng))
+    for _ in range(nrand):
+        cases.append(gen_matrix_case(ctx.rng))
     fr.run_cases(ctx, out, cases, run_impl, to_coq, oracle, failure_key, HEADER,
                  dist_key=dist_key, nontrivial=nontrivial, shard=1000, shrink=shrink)
